@@ -43,6 +43,8 @@ def plan_for(mod, seed, tier, run):
     rng = random.Random("%s:%s:%s" % (seed, mod.PROPERTY, run))
     plan = mod.gen_plan(rng, tier, run)
     plan["_run"] = run
+    # how options are spelled on the command line (-l / --list): drawn last, so that older plans stay unchanged
+    plan.setdefault("long_opts", random.Random("%s:%s:%s:opts" % (seed, mod.PROPERTY, run)).random() < 0.3)
     return plan
 
 
